@@ -1859,10 +1859,6 @@ def rule_startmisc(text):
         (r"thread" + ws + r"::" + ws + r"sleep" + ws + r"\(" + ws + r"interval" + ws + r"\)", r"thread_sleep(&interval)", "R-backoff", "sleep has no effect on the state"),
         (r"for" + ws + r"\(" + ws + r"(\w+)" + ws + r"," + ws + r"(\w+)" + ws + r"\)" + ws + r"in" + ws + r"(\w+)" + ws + r"\." + ws + r"iter\(\)" + ws + r"\." + ws + r"enumerate\(\)" + ws + r"\{",
          r"for \1 in 0..\3.len() { let \2 = &\3[\1];", "R-for", "definition of iter().enumerate() over a Vec"),
-        (r"\(" + ws + r"(" + ex + r")" + ws + r"\.\." + ws + r"sharded_buffers" + ws + r"\." + ws + r"len\(\)" + ws + r"\)" + ws + r"\." + ws + r"step_by" + ws + r"\(" + ws + r"(" + ex + r"(?:\(\))?)" + ws + r"\)" + ws + r"\." + ws + r"any" + ws
-         + r"\(" + ws + r"\|" + ws + r"(\w+)" + ws + r"\|" + ws + r"\{?" + ws + r"sharded_buffers" + ws + r"\[" + ws + r"\3" + ws + r"\]" + ws + r"\." + ws + r"count" + ws + r"\." + ws + r"load" + ws + r"\(" + ws + r"Ordering" + ws + r"::" + ws + r"\w+" + ws + r"\)" + ws + r">" + ws + r"0" + ws + r"\}?" + ws + r"\)",
-         r"stride_any_nonempty(&sharded_buffers, \1, \2)", "R-strideany",
-         "shim: (a..n).step_by(s).any(|i| bufs[i].count > 0) = some shard a + j*s below n has a non-zero counter (start and step expressions verbatim)"),
     ]
     for pat, rep, rname, why in table:
         n = 0
@@ -1876,6 +1872,22 @@ def rule_startmisc(text):
                 break
             apps.append(_app(rname, text, mm.start(), mm.end(), new, why))
             text = text[:mm.start()] + new + text[mm.end():]
+    # (START..sharded_buffers.len()).step_by(STEP).any(|ID| BODY)  ->  the counting loop that defines it (short-circuit included);
+    # START, STEP and BODY are carried over verbatim, so an edit to any of them is verified
+    mm = re.search(r"\(" + ws + r"(" + ex + r")" + ws + r"\.\." + ws + r"(sharded_buffers" + ws + r"\." + ws + r"len\(\))" + ws + r"\)" + ws + r"\." + ws + r"step_by" + ws + r"\(" + ws
+                   + r"(" + ex + r"(?:\(\))?)" + ws + r"\)" + ws + r"\." + ws + r"any" + ws + r"\(", mask(text))
+    if mm:
+        op = mm.end() - 1
+        cl = match_close(mask(text), op)
+        parts = _closure_parts(text[op + 1:cl].strip())
+        if parts and re.fullmatch(r"\w+", parts[0].strip()):
+            ident = parts[0].strip()
+            cbody = parts[1].strip()
+            new = ("{ let mut any_: bool = false; let mut %s_next_: usize = %s; while %s_next_ < %s && !any_ { let %s = %s_next_; %s_next_ = step_next(%s_next_, %s); if %s { any_ = true; } } any_ }"
+                   % (ident, mm.group(1), ident, mm.group(2), ident, ident, ident, ident, mm.group(3), cbody))
+            apps.append(_app("R-strideany", text, mm.start(), cl + 1, new,
+                             "definition of (a..n).step_by(s).any(|i| body) as a counting loop that stops at the first hit (step_by panics on 0: step_next requires step > 0)"))
+            text = text[:mm.start()] + new + text[cl + 1:]
     return text, apps
 
 
